@@ -296,7 +296,9 @@ func (ev *cenv) binary(e *CExpr) *Val {
 		return boolVal(or(l, ev.evalBool(e.Args[1])))
 	case "==>":
 		l := ev.evalBool(e.Args[0])
-		if l == "false" {
+		if l == "false" || foldBool(l) == "false" {
+			// constant-false antecedent (e.g. `calls(L) >= 2` on a path with one call): the
+			// consequent may speak about events that do not exist on this path
 			return boolVal("true")
 		}
 		return boolVal(implies(l, ev.evalBool(e.Args[1])))
@@ -988,6 +990,9 @@ func (ev *cenv) call(e *CExpr) *Val {
 			sub := *ev
 			nst := *ev.st
 			nst.env = he
+			if a, ok := ev.st.ghost[fmt.Sprintf("headalloc:%d", lo)]; ok {
+				nst.alloc = a // allocated(x) inside athead: was x allocated at the head of this iteration
+			}
 			sub.st = &nst
 			sub.heap = ev.st.headHeap[lo]
 			sub.loopMode = true
